@@ -472,6 +472,32 @@ pub fn crash_plan(prop: &str, tier: &str) -> Plan {
         "C14" => return fault_plan(thorough),
         _ => panic!("no crash plan for {prop}"),
     };
+    let mut hs = hs;
+    if prop == "C17" {
+        // the monitor only needs the trace (no image enumeration), so it can afford operations with
+        // hundreds of page writes: a free list spanning two list pages (1280 pages released by
+        // deleting the 5 MiB value of seed `ovf`; a list page holds 1022 entries), then commits
+        // whose allocations cross from the head list page into the next one, release pages of
+        // their own, or run the list dry
+        let cfg = cfg_crash();
+        let w = |k: u64, s: u64| json!([k, "w", s]);
+        let del = |k: u64| json!([k, "d"]);
+        let c = |items: Vec<Value>| json!({"c": items});
+        let uni = vec!["seed:0", "CL0:0-4"];
+        let big = 1_300_000u64; // ≈ 318 pages
+        let ex: Vec<(Vec<Value>, usize)> = vec![
+            (vec![c(vec![del(0)])], 0),
+            (vec![c(vec![del(0)]), c(vec![w(1, big)])], 1),
+            (vec![c(vec![del(0)]), c(vec![w(1, big)]), c(vec![w(2, 70000), del(1)])], 2),
+            (vec![c(vec![del(0)]), c(vec![w(1, big), w(2, big)]), c(vec![w(3, big), del(1)])], 2),
+            (vec![c(vec![del(0)]), c(vec![w(1, 70000)]), c(vec![w(2, big)])], 2),
+            (vec![c(vec![del(0)]), c(vec![w(1, big), w(2, big), w(3, big)]), c(vec![w(4, big), del(2)])], 2),
+            (vec![c(vec![del(0)]), json!({"reopen": {}}), c(vec![w(1, big)])], 2),
+        ];
+        for (ops, t) in ex {
+            hs.push((hist("ovf", uni.clone(), &cfg, ops), t, 3));
+        }
+    }
     let mut cases: Vec<Value> = hs
         .into_iter()
         .flat_map(|(h, t, b)| {
@@ -484,7 +510,7 @@ pub fn crash_plan(prop: &str, tier: &str) -> Plan {
     let rule = match prop {
         "C03" => "crashx: for every history of the set H3 (all histories of ≤D commits with ≤B key actions {write 1 B, write 1333 B, delete} over 4 colliding keys from seeds {empty, leaf, 20-key cluster below a depth-2 merkle page}, plus explicit rollback / reopen / overlay-commit / log-pruning / overflow-value histories; rollback enabled, log length 2, 8 KiB rollback segments, 64-bucket hash table) the last operation is executed on the real store twice — background tasks of the sync pipeline running as they come, and each of them (spawn_task on the *-sync pools, Fsyncer work) held back until some thread waits for it — with every mutating file operation recorded (submission stamp, stamp at which the issuing code learnt of its completion); for EVERY instant of the trace and EVERY subset of the operations in flight at that instant (capped: beyond `cap` in-flight operations only none/all/each single/each single missing/each prefix) the directory image is materialised and reopened with the real Nomt::open; the reopened store must show exactly the old or exactly the new state (values, root, proofs, sync_seqn from the same side; new whenever the operation had returned), decode to that state (independent decoder) and accept a follow-up commit and rollback that behave as in the model; the recovery of every image is itself recorded and cut at every instant (nested once). evaluations = traced operations; transitions = images opened.",
         "C04" => "crashx: the history set and traces of C03 under POWER-LOSS semantics: an operation is durable at instant t iff a sync of its file (its directory for create/unlink) was submitted after the issuing code had received its completion and completed before t; for every instant, every combination (capped per instant, reported) of: per file, every prefix in issue order of the non-durable size-changing operations (set_len, append — the last kept append also cut at every page boundary), every subset (capped) of the non-durable in-place page writes, at most one write torn at the 2 KiB boundary either way; per directory every prefix of non-durable creates/unlinks. Each image is reopened with the real Nomt::open and audited as in C03 (exactly old or exactly new; new once the operation returned); nested once into recovery. transitions = images opened.",
-        _ => "crashx monitor: for every traced operation of the history set H3, every mutating file operation submitted before the meta fsync completes is checked against the live regions of the pre-image as decoded by the independent decoder (leaves, overflow pages, branch nodes, free-list pages of both value files; the whole hash-table file; segments / byte ranges holding live rollback records; the meta page): no write into a live ln/bbn page (only free pages or pages at/after the bump), no ht write at all, no truncation below the bump or below the end of live rollback records, no unlink of a segment holding live records; the WAL is exempt (redo log). transitions = operations checked.",
+        _ => "crashx monitor: for every traced operation of the history set H3, every mutating file operation submitted before the meta fsync completes is checked against the live regions of the pre-image as decoded by the independent decoder (leaves, overflow pages, branch nodes, free-list pages of both value files; the whole hash-table file; segments / byte ranges holding live rollback records; the meta page): no write into a live ln/bbn page (only free pages or pages at/after the bump), no ht write at all, no truncation below the bump or below the end of live rollback records, no unlink of a segment holding live records; the WAL is exempt (redo log). The history set is H3 plus operations with hundreds of page writes on a free list that spans two list pages (allocations crossing from the head list page into the next, the list running dry, pages released and allocated in one commit). transitions = operations checked.",
     };
     let mut p = Plan::new(cases, rule);
     p.level = if prop == "C17" { "model_checking" } else { "fault_enumeration" };
